@@ -269,12 +269,16 @@ Fixpoint ascii_literal (st : pstate) (ts : list token) (n : nat) (acc : bytes) (
 
 (* ---- sizes ---- *)
 
-Definition split_dots (s : bytes) : option (bytes * bytes) :=     (* around the first ".." *)
-  (fix go (pre s : bytes) : option (bytes * bytes) :=
-     match s with
-     | a :: ((b :: r) as t) => if byte_eqb a x2e && byte_eqb b x2e then Some (rev_append pre [], r) else go (a :: pre) t
-     | _ => None
-     end) [] s.
+Fixpoint split_dots_go (pre s : bytes) : option (bytes * bytes) :=
+  match s with
+  | a :: t =>
+    match t with
+    | b :: r => if byte_eqb a x2e && byte_eqb b x2e then Some (rev_append pre [], r) else split_dots_go (a :: pre) t
+    | [] => None
+    end
+  | [] => None
+  end.
+Definition split_dots (s : bytes) : option (bytes * bytes) := split_dots_go [] s.     (* around the first ".." *)
 
 (* parseDataItemSize on the token text "[x]", "[x..]", "[..y]", "[x..y]" *)
 Definition parse_size (v : bytes) : Z * Z :=
